@@ -109,3 +109,14 @@ Theorem C14_source_arith : forall d n,
   geval (env1 "max_digits" d) n hex_max_bytes = Hex.max_bytes_of d /\
   geval (env1 "max_digits" d) n hex_max_digits_full = n * 2.
 Proof. exact tie_hex_arith. Qed.
+
+(* hex_encode_fallback as it stands in src/hex.rs now: its alphabets, the shape of its loop and its
+   two digit indices are the model's enc_loop, its unreachable hint the model's length test *)
+Theorem C14_source_fallback_encoder :
+  (forall up, List.find (fun p => Bool.eqb (fst p) up) hex_alphabets = Some (up, Hex.alphabet up)) /\
+  hex_fallback_shape = (GInt 2, true, "c"%string) /\
+  (forall c n, map (fun p => (geval (env1 "c" c) n (fst p), geval (env1 "c" c) n (snd p))) hex_fallback_digits
+               = [(0, Z.shiftr c 4); (1, Z.land c 15)]) /\
+  (forall ld ls n, ctest (env2 "dst.len" ld "src.len" ls) n hex_fallback_guard = (ld <? ls * 2)).
+Proof. exact tie_hex_fallback. Qed.
+
